@@ -886,11 +886,15 @@ HARNESSES = [
 ]
 
 MANIFEST = {
-    'engine': 'symx',
-    'technique': 'symbolic execution (CrossHair engine + z3) of InterfaceBase.__call__/__adapt__/_call_conform over the '
-                 'solver-enumerated product of environment behaviours, event-log oracle; pure-Python and C builds',
+    'engine': 'symx+irsym',
+    'technique': 'symbolic execution: (1) CrossHair engine + z3 over the solver-enumerated product of environment behaviours of '
+                 'InterfaceBase.__call__/__adapt__/_call_conform (incl. hooks that change adapter_hooks while they run), event-log oracle, '
+                 'pure-Python and C builds; (2) Engine C functional mode - every path of the LLVM IR of IB__call__ / IB__adapt__ with every '
+                 'C-API outcome as a decision: the executed steps and the outcome must be those of the documented order (an automaton over '
+                 'the same events), frame reference balance on every path, findings replayed on the C build against the Python reference',
     'text': 'Bounded-exhaustive over the full product of __conform__/provided/hook/alternate/custom-__adapt__ behaviours stated '
             'in the property: every combination is executed on both implementations and the executed-step log is compared with a '
-            'PEP 246 reference, so "later steps never run" is checked, not only the result.',
-    'note': 'Trusted: the 40-line reference model; hook lists longer than the bound are outside the claim.',
+            'PEP 246 reference, so "later steps never run" is checked, not only the result. The C entry points are additionally '
+            'path-exhausted at IR level (error paths and reference counts included).',
+    'note': 'Trusted: the 40-line reference model, the C-API contract stubs of ir_call (evidence lists them); hook lists longer than the bound are outside the claim.',
 }
